@@ -2064,6 +2064,9 @@ func natsToProtoMessage(msg *nats.Msg, leaderEpoch uint64) *commitlog.Message {
 		m.Offset = message.Offset
 	} else {
 		m.Value = msg.Data
+		// A payload that is not an envelope cannot carry an expected offset,
+		// so it must not be checked against one.
+		m.Offset = -1
 	}
 	m.Headers["subject"] = []byte(msg.Subject)
 	m.Headers["reply"] = []byte(msg.Reply)
